@@ -524,7 +524,7 @@ theorem loopNode_tri (loop : St → Res) (hl : Tri loop) : Tri (loopNode loop) :
       match ({ r0 with st := { r0.st with c := { r0.st.c with brkD := max s.c.brkD r0.st.c.brkD } } } : Res).err with
       | some _ => ({ r0 with st := { r0.st with c := { r0.st.c with brkD := max s.c.brkD r0.st.c.brkD } } } : Res)
       | none => match ({ r0 with st := { r0.st with c := { r0.st.c with brkD := max s.c.brkD r0.st.c.brkD } } } : Res).st.c.err with
-        | some e => fail ({ r0 with st := { r0.st with c := { r0.st.c with brkD := max s.c.brkD r0.st.c.brkD } } } : Res).st e
+        | some e => loopErrRes ({ r0 with st := { r0.st with c := { r0.st.c with brkD := max s.c.brkD r0.st.c.brkD } } } : Res).st e
         | none => ({ r0 with st := { r0.st with c := { r0.st.c with brkD := max s.c.brkD r0.st.c.brkD } } } : Res))
     k { s with c := { s.c with brkD := 0 } } (hl.lock k _ h0)
   · generalize loop { s with c := { s.c with brkD := 0 } } = r0
@@ -533,15 +533,25 @@ theorem loopNode_tri (loop : St → Res) (hl : Tri loop) : Tri (loopNode loop) :
     | some e => exact Or.inl rfl
     | none =>
       simp only [St.wf_c]
-      cases r0.st.c.err <;> exact Or.inl rfl
+      cases r0.st.c.err with
+      | none => exact Or.inl rfl
+      | some e => simp only; left; unfold loopErrRes; split <;> rfl
   · generalize loop { s with c := { s.c with brkD := 0 } } = r0
     cases r0.err with
     | some e => exact List.prefix_refl _
-    | none => simp only; cases r0.st.c.err <;> exact List.prefix_refl _
+    | none =>
+      simp only
+      cases r0.st.c.err with
+      | none => exact List.prefix_refl _
+      | some e => simp only; rw [loopErrRes_w]; exact List.prefix_refl _
   · intro r' hd
     cases r'.err with
     | some e => exact ⟨hd, rfl⟩
-    | none => simp only; cases r'.st.c.err <;> exact ⟨hd, rfl⟩
+    | none =>
+      simp only
+      cases r'.st.c.err with
+      | none => exact ⟨hd, rfl⟩
+      | some e => simp only; rw [loopErrRes_w]; exact ⟨hd, rfl⟩
 
 
 /-! ### The interpreter -/
